@@ -45,6 +45,7 @@ type step struct {
 type scriptT struct {
 	Fam   string `json:"fam"`
 	Gap   bool   `json:"gap"`
+	Cfg   int    `json:"cfg"` // client logging configuration (cli.NewCfg)
 	Steps []step `json:"steps"`
 }
 
@@ -60,7 +61,7 @@ type result struct {
 
 func genScript(rng *rand.Rand, famName string, gap bool) scriptT {
 	f := fam(famName)
-	sc := scriptT{Fam: famName, Gap: gap}
+	sc := scriptT{Fam: famName, Gap: gap, Cfg: rng.IntN(cli.NCfg)}
 	nsteps := 5 + rng.IntN(36)
 	ncalls := 0
 	maxCalls := 1 + rng.IntN(8)
@@ -273,7 +274,7 @@ func execute(t *testing.T, sc scriptT) (res map[int]*result, tx int, matcherNil 
 				break
 			}
 		}
-		c, err := f.New(conn, T, tries)
+		c, err := f.NewCfg(conn, T, tries, sc.Cfg)
 		if err != nil {
 			t.Fatal(err)
 		}
@@ -315,6 +316,8 @@ func execute(t *testing.T, sc scriptT) (res map[int]*result, tx int, matcherNil 
 					rp, got, err := c.SendAndRead(ctx, dest, req, m)
 					r.At = time.Since(start)
 					switch {
+					case err == nil && got && rp.Damaged:
+						r.Kind, r.Nonce = "damaged", rp.Nonce // not the bytes of the datagram that arrived
 					case err == nil && got:
 						r.Kind, r.Nonce = "ok", rp.Nonce
 					case err == nil:
@@ -451,6 +454,9 @@ func judge(r *mon.Rec, t *testing.T, sc scriptT, tag string) {
 			return
 		case "other":
 			bad("unexpected-error", "call %d returned %s", id, rr.Err)
+			return
+		case "damaged":
+			bad("damaged-message", "call %d (xid %d) returned a message with the nonce of datagram %d but not its trailer: it is not the datagram that arrived (cut short or overwritten)", id, cs.Xid, rr.Nonce)
 			return
 		case "ok":
 			d, ok := inj[rr.Nonce]
